@@ -1,6 +1,6 @@
 """Per-property metadata for MANIFEST.json."""
 
-HOOK_COMMITS = ["f2e7017", "f6e5a67"]
+HOOK_COMMITS = ["f2e7017", "f6e5a67", "bb708cb", "141a8af"]
 
 PAR_NOTE = ("Trusted: TLC, Sem.tla / SyncOps.tla, the harness and the hook events (emitted under the protecting lock). "
             "Schedules on the implementation are sampled (real OS threads, seeded jitter), not enumerated; universality "
@@ -13,6 +13,8 @@ def par(text, design, technique="TLA+ trace validation of multi-threaded salsa r
 
 
 ENGINES = [
+    {"name": "edge-codec", "path": "specs/codec/EdgeCodec.tla", "serves_properties": ["C25"],
+     "kind_free_text": "TLA+ specification of the stored-origin codec over boundary classes; TLC-generated cases replayed through hook H3"},
     {"name": "par-trace", "path": "specs/core/ParTrace.tla, specs/sync/SyncTrace.tla, specs/sync/SyncOps.tla",
      "serves_properties": ["C16", "C17", "C18", "C19", "C20", "C21"],
      "kind_free_text": "TLA+ monitors over traces of real threads on database clones; protocol events from hook H1 are "
@@ -71,6 +73,11 @@ META = {
                     "monitors check that the panic reaches the caller, waiters are released, and every later result is "
                     "from-scratch.", "§7 C22", "fault enumeration + TLA+ trace validation (CoreTrace / ParTrace / SyncTrace)"),
                 level="fault_enumeration", engine="core-trace"),
+    "C25": dict(claimed=True, engine="edge-codec", level="model_checking",
+                text="TLC enumerates every edge sequence over boundary classes with the specification's predicted decoding; each case "
+                     "is replayed on the real private codec (hook H3) on the default and the persistence build.",
+                design_ref="§4.6, §7 C25", note="The model works over boundary classes of the 12+20-bit packing, not over all 32-bit words.",
+                technique="TLA+ specification (EdgeCodec.tla) enumerated by TLC, cases replayed into the implementation"),
     "C23": dict(seq("Value-lifetime discipline only (no raw-memory claims): no drop while a reference of the same revision "
                     "is held, retained references keep their value, no double drop, nothing leaked at database drop.",
                     "§7 C23, §8"), level="exploration"),
